@@ -20,6 +20,18 @@ Definition CT_ELLIPTIC : Z := 7.
 (* arr[k] := x *)
 Definition upd {A} (l : list A) (k : nat) (x : A) : list A := firstn k l ++ x :: skipn (S k) l.
 
+(* mj_instantiateContact, efc_address bookkeeping: contacts in order as (exclude, nrows) where exclude is the
+   final flag (0: included; 1 in gap, 3 no dofs affected, 4 passive) and nrows the rows an included contact adds
+   (1, dim or 2(dim-1)); start = d->nefc before the first contact.  Excluded contacts get -1. *)
+Fixpoint contact_addresses (start : Z) (cs : list (Z * Z)) : list Z :=
+  match cs with
+  | [] => []
+  | (ex, n) :: r => if (ex =? 0)%Z then start :: contact_addresses (start + n)%Z r
+                    else (-1)%Z :: contact_addresses start r
+  end.
+Fixpoint included_rows (cs : list (Z * Z)) : Z :=
+  match cs with [] => 0%Z | (ex, n) :: r => ((if (ex =? 0)%Z then n else 0) + included_rows r)%Z end.
+
 Section CU.
 Context {T : Type} `{Num T}.
 Local Open Scope num_scope.
@@ -203,6 +215,11 @@ Definition contact_force (pyramidal : bool) (efc_force : list T) (adr : Z) (fr :
   | r0 :: rest => (r0 - adhesion) :: rest
   | [] => []
   end.
+
+(* mj_contactForce including its gate: zero(6) unless the contact has efc_address >= 0 *)
+Definition contact_force_gated (pyramidal : bool) (efc_force : list T) (adr : Z) (fr : list T) (dim : Z)
+                               (adhesion : T) : list T :=
+  if (adr <? 0)%Z then repeat nzero 6 else contact_force pyramidal efc_force adr fr dim adhesion.
 
 (* ---- dual solvers (engine_solver.c), per-row projections next to the force law.
    mju_clip(x, min, max) = x < min ? min : (x > max ? max : x) *)
